@@ -17,7 +17,8 @@ From Coq Require Import NArith List Bool Lia.
 From KdV Require Import Fmt.Codec Fmt.CodecProofs Fmt.Rle Fmt.RleProofs
      Fmt.PfnModel Fmt.BitmapSpec Fmt.ImageSpec Fmt.DiskdumpModel Fmt.DiskdumpSpec Fmt.DiskdumpProofs
      Fmt.S390Model Fmt.S390Spec Fmt.S390Proofs Fmt.LkcdModel Fmt.LkcdSpec Fmt.LkcdProofs Fmt.ReadProofs
-     Fmt.ElfModel Fmt.ElfSpec Fmt.ElfProofs Fmt.ElfRoundtrip Fmt.ElfOpenProofs.
+     Fmt.ElfModel Fmt.ElfSpec Fmt.ElfProofs Fmt.ElfRoundtrip Fmt.ElfOpenProofs
+     Fmt.SadumpModel Fmt.SadumpSpec Fmt.SadumpProofs.
 Import ListNotations.
 Local Open Scope N_scope.
 
@@ -164,6 +165,37 @@ Theorem C01_elf_shortcut_irrelevant : forall virt file st addr dist,
   same_arrays (snd (find_closest file virt st addr dist)) st.
 Proof. exact find_closest_pure. Qed.
 Print Assumptions C01_elf_shortcut_irrelevant.
+
+(** * SADUMP *)
+
+(** [_partial]: the page path only.  For a state whose regions come from the
+    dumpable bitmap (MSB 0 numbering) of the image and whose disk extents lay
+    out the page data ([ext_loop] finds every whole page; shown for one disk
+    by [single_extent_ok] and for a disk set whose members hold whole pages by
+    [ext_loop_chunks]), [sadump_read_page] (with the in-region offset of fix
+    04) returns the image's page.  That [sd_open] builds such a state from the
+    three container kinds is covered by the tie only. *)
+Theorem C01_sadump_page_path_partial : forall rd img nbytes exts max_pfn bs ptr nf,
+  Forall (fun oc => match oc with Some c => len c = 4096 | None => True end) img ->
+  (length img <= 8 * nbytes)%nat ->
+  (forall k, k < count_some img ->
+     exists f o, ext_loop exts (4096 * k) = Some (f, o) /\
+                 rd f o 4096 = read_of (page_data img) (4096 * k) 4096) ->
+  forall z pfn,
+    sd_read_page rd (the_state img nbytes exts max_pfn bs ptr nf) z pfn =
+    spec_read_page img SADUMP_PAGE_SIZE max_pfn z pfn.
+Proof. exact sadump_page_path. Qed.
+Print Assumptions C01_sadump_page_path_partial.
+
+Theorem C01_sadump_disk_set_extents : forall rd (chunks : list (extent * bytes)) pos,
+  Forall (fun ec => ex_len (fst ec) = len (snd ec) /\ (len (snd ec)) mod 4096 = 0 /\
+                    forall o n, o + n <= len (snd ec) ->
+                                rd (ex_fidx (fst ec)) (ex_pos (fst ec) + o) n = read_of (snd ec) o n) chunks ->
+  pos mod 4096 = 0 -> pos + 4096 <= len (concat (map snd chunks)) ->
+  exists f o, ext_loop (map fst chunks) pos = Some (f, o) /\
+              rd f o 4096 = read_of (concat (map snd chunks)) pos 4096.
+Proof. exact ext_loop_chunks. Qed.
+Print Assumptions C01_sadump_disk_set_extents.
 
 (** * LKCD *)
 
